@@ -13,7 +13,7 @@ RULE = ('one execution = one depth-0 call of a signed randomiser on a signed wei
         'bin_swaps/itr in {0,1,5}, wei_freq in {0,0.1,0.5,1}, Spy and Hostile schedules, plus chains of '
         'single-iteration randmio_*_signed calls; non-trivial = both signs present and output differs from input')
 EXHAUSTIVE = {}
-ASSUMPTIONS = ['inputs contain at least one positive and one negative connection, empty diagonal, n >= 5',
+ASSUMPTIONS = ['inputs contain at least one positive and one negative connection, n >= 5; self-connections only for the null_model routines (which drop them), degrees and weights are counted off the diagonal',
                'strength preservation is not demanded (only reported through the returned correlations)']
 CLAUSES = ['pos_in_degree', 'pos_out_degree', 'neg_in_degree', 'neg_out_degree', 'pos_weight_multiset',
            'neg_weight_multiset', 'empty_diagonal']
@@ -21,7 +21,7 @@ REQUIRED = ['%s/%s' % (f, c) for f in FUNCS for c in CLAUSES] + \
            ['randmio_und_signed/symmetric', 'null_model_und_sign/symmetric',
             'null_model_und_sign/strength_correlations', 'null_model_dir_sign/strength_correlations']
 CASE_TIMEOUT = {'quick': 30.0, 'thorough': 180.0}
-POL = sorted(rngmod.POLICIES)
+POL = sorted(p for p in rngmod.POLICIES if p != 'stall')
 
 
 def signed_matrix(n, dens, scheme, directed, seed):
@@ -60,6 +60,11 @@ def cases(tier, seed):
         for f in FUNCS:
             out.append({'f': f, 'n': n, 'dens': dens, 'scheme': scheme, 'ms': ms, 'kind': 'single',
                         'rs': seed * 100 + t, 'pol': POL[t % len(POL)], 'allpol': thorough and t % 6 == 0})
+    for t in range(40 if thorough else 12):     # networks with self-connections
+        n = int(rs.randint(5, nmax + 1))
+        for f in ('null_model_und_sign', 'null_model_dir_sign'):
+            out.append({'f': f, 'n': n, 'dens': float(rs.choice([1.0, .6, .3])), 'scheme': ['normal', 'int'][t % 2], 'ms': int(rs.randint(1 << 30)),
+                        'kind': 'single', 'rs': seed * 100 + t, 'pol': POL[t % len(POL)], 'allpol': False, 'selfconn': ['cancel', 'random'][t % 2]})
     L = 300 if thorough else 40
     for t in range(12 if thorough else 6):
         n = int(rs.randint(5, 9))
@@ -98,6 +103,7 @@ def one(REC, bct, f, W, cfg, rng):
     fn = getattr(bct, f)
     REC.tag(PROP, 'exec')
     Win = W.copy()
+    np.fill_diagonal(Win, 0)     # self-connections (the null models accept them and drop them) are not connections
     if f.startswith('null_model'):
         ok, res = call(REC, PROP, f, fn, W, cfg['swaps'], cfg['wf'], seed=rng)
         if not ok:
@@ -135,6 +141,14 @@ def run(case, bct, REC):
         REC.tag(PROP, 'out_of_domain_skipped')
         return
     n = len(W)
+    if case.get('selfconn') and f.startswith('null_model'):
+        rs = np.random.RandomState(case['ms'] + 1)
+        if case['selfconn'] == 'cancel':       # present, and cancelling exactly in the trace
+            d = np.zeros(n)
+            d[:4] = [2.5, -2.5, 0.75, -0.75]
+            W[np.arange(n), np.arange(n)] = rs.permutation(d)
+        else:
+            W[np.arange(n), np.arange(n)] = rs.randint(-3, 4, size=n).astype(float)
     if case['kind'] == 'chain':
         rng = rngmod.make_rng(case['rng'])
         itr1 = (1 + 1e-9) / (n * (n - 1) if directed else int(n * (n - 1) / 2))
